@@ -252,6 +252,9 @@ func TestRegress(t *testing.T) { checker.Regress(t) }
 
 func TestProp(t *testing.T) { checker.Prop(t, genCase) }
 
+// FuzzProp: the same generator driven by the native coverage-guided fuzzer (thorough tier only).
+func FuzzProp(f *testing.F) { checker.Fuzz(f, genCase) }
+
 // TestGrid: a deterministic table: every kind x {unversioned, versioned ”/'1.2.3'/16 bytes} x body lengths around the boundaries x every reader mode.
 func TestGrid(t *testing.T) {
 	vk.SetPhase("grid")
